@@ -246,3 +246,19 @@ def reparent_trigger(world, live):
             if last_global_round is not None and world.round_of.get(id(n), 0) < last_global_round:
                 return True
     return False
+
+
+def expected_bits(world, live):
+    """Output the language prescribes for the one live world: (bit length, value) or None if some referenced
+    constant has no integer value there."""
+    vals = world.eval_consts()
+    n, v = 0, 0
+    for node in live:
+        if node[0] == "data":
+            n, v = n + 8, (v << 8) | node[1]
+        elif node[0] == "ref":
+            x = vals.get(node[1])
+            if x is None or x[0] != "int":
+                return None
+            n, v = n + 16, (v << 16) | (x[1] & 0xffff)
+    return n, v
